@@ -89,7 +89,7 @@ class CallMixin:
 
     # ------------------------------------------------------------------ builtins
     def bi_len(self, node, st, want):
-        v = self.ev(node.args[0], st)
+        v = self.unwrap(self.ev(node.args[0], st), st, node)
         if isinstance(v.ty, T.Seq):
             return SV(v.ty.len(v.t), T.Int)
         if isinstance(v.ty, T.Tup):
@@ -283,7 +283,45 @@ class CallMixin:
         return SV(z3.BoolVal(any(res)), T.Bool)
 
     def bi_sorted(self, node, st, want):
-        raise Unsupported("sorted() as a value (only as a loop iterable or with a contract model)")
+        """sorted(set(xs)) / sorted(xs) over ints: a fresh sequence, (strictly) increasing, with the same elements."""
+        if node.keywords:
+            raise Unsupported("sorted() with key/reverse as a value")
+        a = node.args[0]
+        strict = False
+        if isinstance(a, ast.Call) and isinstance(a.func, ast.Name) and a.func.id == "set" and "set" not in st.env:
+            src = self.ev(a.args[0], st)
+            strict = True
+        else:
+            src = self.ev(a, st)
+        if isinstance(src.ty, T.Set):
+            strict = True
+            src_elems = src
+        elif isinstance(src.ty, T.Seq):
+            src_elems = self.elems(src)
+        else:
+            raise Unsupported(f"sorted({src.ty})")
+        ety = src_elems.ty.elem
+        if ety != T.Int and ety.name not in self.user_order:
+            raise Unsupported("sorted() needs an ordered element type")
+        lt = (lambda p, q: p < q) if ety == T.Int else self.user_order[ety.name]
+        sty = T.Seq(ety)
+        r = fresh(sty, "sorted")
+        arr, n = sty.arr(r.t), sty.len(r.t)
+        i, j = z3.Int(fresh_name("i")), z3.Int(fresh_name("j"))
+        st.assume(n >= 0)
+        st.assume(self.elems(r).t == src_elems.t)
+        if strict:
+            st.assume(z3.ForAll([i, j], z3.Implies(z3.And(0 <= i, i < j, j < n), lt(arr[i], arr[j]))))
+            if isinstance(src.ty, T.Seq):
+                st.assume(n <= src.ty.len(src.t))
+                # no duplicates in the source  <=>  same length
+                k1, k2 = z3.Int(fresh_name("k")), z3.Int(fresh_name("k"))
+                sarr, sn = src.ty.arr(src.t), src.ty.len(src.t)
+                st.assume((n == sn) == z3.ForAll([k1, k2], z3.Implies(z3.And(0 <= k1, k1 < k2, k2 < sn), sarr[k1] != sarr[k2])))
+        else:
+            st.assume(z3.ForAll([i, j], z3.Implies(z3.And(0 <= i, i < j, j < n), z3.Not(lt(arr[j], arr[i])))))
+            st.assume(n == src.ty.len(src.t))
+        return r
 
     def bi_divmod(self, node, st, want):
         x = self.to_int(self.ev(node.args[0], st), st, node)
@@ -313,25 +351,25 @@ class CallMixin:
         return SV(sty.mk(z3.Lambda([i], i + lo), z3.If(hi > lo, hi - lo, 0)), sty)
 
     def _bisect(self, node, st, left):
-        s = self.ev(node.args[0], st)
+        s = self.unwrap(self.ev(node.args[0], st), st, node)
         x = self.ev(node.args[1], st)
         if not isinstance(s.ty, T.Seq):
             raise Unsupported("bisect on non-seq")
         arr, n = s.ty.arr(s.t), s.ty.len(s.t)
-        r = z3.Int(fresh_name("bis"))
+        r = self.fresh_q(z3.IntSort(), "bis")
         i = z3.Int(fresh_name("i"))
         xe = self.coerce(x, s.ty.elem)
         lt = (lambda a, b: a < b) if s.ty.elem == T.Int else self.user_order[s.ty.elem.name]
         # precondition of the model: the list is sorted (non-decreasing); obligation at the call
         j, k = z3.Int(fresh_name("j")), z3.Int(fresh_name("k"))
         self.check(st, z3.ForAll([j, k], z3.Implies(z3.And(0 <= j, j <= k, k < n), z3.Not(lt(arr[k], arr[j])))), "bisect-sorted", node)
-        st.assume(z3.And(0 <= r, r <= n))
+        self.assume_q(st, z3.And(0 <= r, r <= n), r)
         if left:
-            st.assume(z3.ForAll([i], z3.Implies(z3.And(0 <= i, i < r), lt(arr[i], xe.t)), patterns=[arr[i]]))
-            st.assume(z3.ForAll([i], z3.Implies(z3.And(r <= i, i < n), z3.Not(lt(arr[i], xe.t))), patterns=[arr[i]]))
+            self.assume_q(st, z3.ForAll([i], z3.Implies(z3.And(0 <= i, i < r), lt(arr[i], xe.t)), patterns=[arr[i]]), r)
+            self.assume_q(st, z3.ForAll([i], z3.Implies(z3.And(r <= i, i < n), z3.Not(lt(arr[i], xe.t))), patterns=[arr[i]]), r)
         else:
-            st.assume(z3.ForAll([i], z3.Implies(z3.And(0 <= i, i < r), z3.Not(lt(xe.t, arr[i]))), patterns=[arr[i]]))
-            st.assume(z3.ForAll([i], z3.Implies(z3.And(r <= i, i < n), lt(xe.t, arr[i])), patterns=[arr[i]]))
+            self.assume_q(st, z3.ForAll([i], z3.Implies(z3.And(0 <= i, i < r), z3.Not(lt(xe.t, arr[i]))), patterns=[arr[i]]), r)
+            self.assume_q(st, z3.ForAll([i], z3.Implies(z3.And(r <= i, i < n), lt(xe.t, arr[i])), patterns=[arr[i]]), r)
         return SV(r, T.Int)
 
     def bi_bisect_bisect_left(self, node, st, want):
@@ -368,7 +406,7 @@ class CallMixin:
                 if ty.elem != T.Int:
                     # element-set view of append (consequence of the elems axioms by extensionality)
                     st.assume(z3.Implies(n >= 0, self.elems(newseq).t == z3.Store(self.elems(base).t, v.t, True)))
-                if ty.elem == T.Int:
+                if ty.elem == T.Int and self.psum_enabled:
                     st.assume(psum(z3.Store(arr, n, v.t), n + 1) == psum(arr, n) + v.t)
                 return SV(T.NoneT.value(), T.NoneT)
             if meth == "pop":
